@@ -1,9 +1,9 @@
 """C09 - the same text means the same graphs in every container and stream framing.
 
-Space: every sequence of 0..3 (thorough: 0..4) graphs from a 7-graph corpus (metadata with
+Space: every sequence of 0..3 (thorough: 0..4) graphs from a 8-graph corpus (metadata with
 several keys on one line, empty values, values holding ; ( ) " # and U+2028 / U+0085 / FF / VT
 / U+001C, string constants holding the same) x serialisation {dumps, dump to StringIO, dump
-to a real file, manual join with blank line / newline / space} x indent {-1, None, 0} x line
+to a real file, manual join with blank line / newline / space / nothing} x indent {-1, None, 0} x line
 terminator {LF, CRLF, CR} x container {str, lines, lines with terminators, text stream,
 file name, open file} x API {loads/load/iterdecode, iterparse}.
 Oracle: every container yields the same graph sequence (triples, top, marker lists,
@@ -33,10 +33,11 @@ CORPUS = [
     '# ::snt x y\u0085z\x0cw\x0bv\x1cu\n(g / gamma :op1 "p q\x0br\x1cs\u0085t" :op2 k l)',
     '(h / eta :ARG0 (i / iota :ARG0 (j / kappa)) :ARG1 j)',
     '# ::id 7\n(k)',
+    '# ::empty\n(m / mu :ARG0 (n / nu))',
 ]
 TERMS = {'LF': '\n', 'CRLF': '\r\n', 'CR': '\r'}
 INDENTS = [-1, None, 0]
-SERIALS = ['dumps', 'dump_stringio', 'dump_file', 'join_blank', 'join_newline', 'join_space']
+SERIALS = ['dumps', 'dump_stringio', 'dump_file', 'join_blank', 'join_newline', 'join_space', 'join_none']
 CONTAINERS = ['str', 'lines', 'lines_with_terminators', 'stream', 'filename', 'filehandle']
 
 
@@ -46,7 +47,7 @@ def shards(tier, seed):
     seqs = [()]
     for k in range(1, n + 1):
         seqs += list(itertools.product(range(len(CORPUS)), repeat=k))
-    b = f'all sequences of 0..{n} graphs from 7 x 6 serialisations x 3 indents x 3 terminators x 6 containers x 2 APIs'
+    b = f'all sequences of 0..{n} graphs from 8 x 7 serialisations x 3 indents x 3 terminators x 6 containers x 2 APIs'
     for i in range(0, len(seqs), 4):
         out.append({'sub': 'framing', 'seqs': [list(s) for s in seqs[i:i + 4]], 'bounds': b})
     return out
@@ -92,7 +93,7 @@ def check(case, ctx):
             with open(p, encoding='utf-8', newline='') as fh:
                 text = fh.read()
         else:
-            joiner = {'join_blank': '\n\n', 'join_newline': '\n', 'join_space': ' '}[ser]
+            joiner = {'join_blank': '\n\n', 'join_newline': '\n', 'join_space': ' ', 'join_none': ''}[ser]
             text = joiner.join(penman.encode(g, indent=indent) for g in originals)
         ctx.transitions += 1
         for tname, term in TERMS.items():
